@@ -141,7 +141,8 @@ impl DnsCache {
             .filter_map(|(instance, srv_list)| {
                 if let Some(item) = srv_list.first() {
                     if let Some(dns_srv) = item.record.any().downcast_ref::<DnsSrv>() {
-                        if dns_srv.host() == host {
+                        // DNS names are case insensitive.
+                        if dns_srv.host().eq_ignore_ascii_case(host) {
                             return Some(instance.clone());
                         }
                     }
